@@ -3,7 +3,9 @@ package c17
 
 import (
 	"context"
+	"errors"
 	"fmt"
+	"net/http"
 	"strings"
 	"time"
 
@@ -206,6 +208,112 @@ func resumeFailBody(valid, auto bool, failAt int, wrapped bool) func() {
 	}
 }
 
+// sessWriter is an http.ResponseWriter with FlushError whose failAt-th Write fails after accepting half of it.
+type sessWriter struct {
+	hdr    http.Header
+	body   []byte
+	writes int
+	failAt int
+}
+
+var errSessWrite = errors.New("scripted ResponseWriter failure")
+
+func (w *sessWriter) Header() http.Header { return w.hdr }
+func (w *sessWriter) WriteHeader(int)     {}
+func (w *sessWriter) FlushError() error   { return nil }
+func (w *sessWriter) Write(p []byte) (int, error) {
+	w.writes++
+	if w.writes == w.failAt {
+		w.body = append(w.body, p[:len(p)/2]...)
+		return len(p) / 2, errSessWrite
+	}
+	w.body = append(w.body, p...)
+	return len(p), nil
+}
+
+type sessWorld struct {
+	Bodies [2]string
+	Errs   [2]error
+	Ret    [2]bool
+	Want   string
+	Pub    []error
+	Shut   error
+}
+
+// sessionBody: the subscribers are real Sessions (what Server hands to a provider). The first one's ResponseWriter
+// fails at its failAt-th Write; the second is healthy and must receive exactly the published messages.
+func sessionBody(failAt int) func() {
+	return func() {
+		w := &sessWorld{}
+		vrt.SetUser(w)
+		rep := &jh.Replayer{Reg: vrt.MakeChan[string](8)}
+		j := &sse.Joe{Replayer: rep}
+		jh.PreInit(j)
+		writers := []*sessWriter{{hdr: http.Header{}, failAt: failAt}, {hdr: http.Header{}}}
+		var subs []vrt.Handle
+		for i, wr := range writers {
+			req, _ := http.NewRequest(http.MethodGet, "http://verif.invalid/", http.NoBody)
+			sess, err := sse.Upgrade(wr, req)
+			if err != nil {
+				vrt.Fail("Upgrade: %v", err)
+			}
+			ctx := vrt.NewCtx(fmt.Sprintf("S%d", i+1))
+			subs = append(subs, vrt.GoNamed(fmt.Sprintf("S%d", i+1), func() {
+				w.Errs[i] = j.Subscribe(ctx, sse.Subscription{Client: sess, Topics: []string{"a"}})
+				w.Ret[i] = true
+			}))
+			vrt.Recv(rep.Reg)
+		}
+		pub := vrt.GoNamed("P", func() {
+			for k := 0; k < 3; k++ {
+				m := &sse.Message{ID: sse.ID(fmt.Sprint("e", k))}
+				m.AppendData(fmt.Sprintf("first line of %d", k), fmt.Sprintf("second line of %d", k))
+				if k == 1 {
+					m.AppendComment("note")
+				}
+				w.Want += m.String()
+				w.Pub = append(w.Pub, j.Publish(m, []string{"a"}))
+			}
+		})
+		vrt.Join(pub)
+		w.Shut = j.Shutdown(context.Background())
+		vrt.Join(subs...)
+		for i, wr := range writers {
+			w.Bodies[i] = string(wr.body)
+		}
+	}
+}
+
+func sessionCheck(failAt int) func(r *vrt.Result) string {
+	return func(r *vrt.Result) string {
+		if r.Outcome != vrt.Done {
+			return r.Outcome + ": " + r.Msg
+		}
+		w := r.User.(*sessWorld)
+		for k, e := range w.Pub {
+			if e != nil {
+				return fmt.Sprintf("Publish #%d returned %v", k+1, e)
+			}
+		}
+		if !w.Ret[0] || !w.Ret[1] {
+			return "a Subscribe did not return"
+		}
+		if w.Errs[0] != errSessWrite {
+			return fmt.Sprintf("the Session whose ResponseWriter failed at Write #%d: Subscribe returned %v, want the writer's error", failAt, w.Errs[0])
+		}
+		if w.Errs[1] != nil {
+			return fmt.Sprintf("the healthy Session's Subscribe returned %v", w.Errs[1])
+		}
+		if w.Bodies[1] != w.Want {
+			return fmt.Sprintf("the healthy Session received %q, want exactly the published messages %q (its neighbour's ResponseWriter failed at Write #%d)", w.Bodies[1], w.Want, failAt)
+		}
+		if !strings.HasPrefix(w.Want, w.Bodies[0]) {
+			return fmt.Sprintf("the failing Session received %q, which is not a prefix of the published messages", w.Bodies[0])
+		}
+		return ""
+	}
+}
+
 func resumeCheck(r *vrt.Result) string {
 	if r.Outcome != vrt.Done {
 		return r.Outcome + ": " + r.Msg
@@ -260,6 +368,12 @@ func summary(r *vrt.Result) string {
 }
 
 func sig(r *vrt.Result, msg string) string {
+	if strings.HasPrefix(msg, "the healthy Session received") {
+		return "the healthy Session did not receive exactly the published messages"
+	}
+	if strings.HasPrefix(msg, "the failing Session received") {
+		return "the failing Session received something that is not a prefix of the published messages"
+	}
 	s := run.NormSig(r, msg)
 	if i := strings.Index(s, " (topics"); i >= 0 {
 		if j := strings.Index(s[i:], ") "); j > 0 {
@@ -360,6 +474,12 @@ func Scenarios(tier string) []run.Scenario {
 				}
 			}
 		}
+	}
+	// real Sessions as subscribers, one of them over a ResponseWriter that fails at its k-th Write
+	for at := 1; at <= 14; at++ {
+		a := at
+		out = append(out, run.Scenario{Name: fmt.Sprintf("sessions-write%d-fails", a), Body: sessionBody(a), Check: sessionCheck(a), Sig: sig,
+			Opts: vrt.Options{PreemptBound: -1, FaultBound: -1, OrderBound: -1, Prune: true}})
 	}
 	// a subscriber arriving after the replayer failed
 	late := append([]rs{{ra: 4, rk: 0}, {ra: 4, rk: 1}}, scripts[1:]...)
